@@ -274,8 +274,14 @@ func sdocCause(d Sdoc) []string {
 	if d.Num {
 		return nil
 	}
-	if len(d.D) == 0 && len(d.H) != 0 {
+	if len(d.D) == 0 && len(d.H) != 0 { // legal since 500dcc2 when the Hessian is square
 		c = append(c, "hessian-without-derivative")
+		for _, row := range d.H {
+			if len(row) != len(d.H) {
+				c = append(c, "hessian-shape")
+				break
+			}
+		}
 	}
 	if len(d.D) != 0 && len(d.H) != 0 {
 		bad := len(d.H) != len(d.D)
@@ -403,6 +409,7 @@ func oracleMalformed(rc Recipe, et EType, kind string, gr Outcome, back interfac
 // MarshalJSON of a constant type once recursed without end (fatal stack overflow, not recoverable): the first
 // case of every type runs in a child process; once a child has returned, that type is marshalled in-process
 var constReturned = map[string]bool{}
+var constCrashed = map[string]string{} // a fatal crash is a property of the type's method, not of the value: run it once (~3 s each)
 
 func constWrite(rc Recipe, et EType) (string, error) {
 	if constReturned[et.Name] {
@@ -420,11 +427,19 @@ func constWrite(rc Recipe, et EType) (string, error) {
 		}
 		return "PANIC " + msg, nil
 	}
+	if out, ok := constCrashed[et.Name]; ok {
+		return out, fmt.Errorf("child died")
+	}
 	b, _ := json.Marshal(rc)
 	cmd := exec.Command(os.Args[0], "--extra", "constchild:"+string(b))
 	out, err := cmd.CombinedOutput()
 	if err == nil {
 		constReturned[et.Name] = true
+	} else {
+		constCrashed[et.Name] = string(out)
+		if len(out) > 4000 {
+			constCrashed[et.Name] = string(out[:4000])
+		}
 	}
 	return string(out), err
 }
